@@ -548,6 +548,13 @@ class IteratorQueue(IterableQueue[_ValueT]):
     self._enqueue_start = 0
     self._enqueue_stop = 0
     self.ignore_error = ignore_error
+    # What is stopped together with this queue, e.g., the queue its enqueuers
+    # read from.
+    self._stopped_with: list[types.Stoppable] = []
+
+  def stop_with(self, other: types.Stoppable) -> None:
+    """Also stops `other` when this queue is stopped."""
+    self._stopped_with.append(other)
 
   @classmethod
   def _default_queue(cls, maxsize: int) -> _QueueLike[_ValueT]:
@@ -798,6 +805,8 @@ class IteratorQueue(IterableQueue[_ValueT]):
         self._set_exhausted()
       else:
         self._dequeue_lock.notify_all()
+    for other in self._stopped_with:
+      other.maybe_stop()
     logging.info('chainable: %s', f'"{self.name}" stopping enqueue.')
 
   def enqueue_from_iterator(self, iterator: Iterable[_ValueT]):
@@ -1134,13 +1143,20 @@ def piter(
     assert input_iterable is not None
     return input_iterable
   thread_pool = _get_thread_pool(thread_pool)
-  return piter_fn(
+  result = piter_fn(
       iterator_fn,
       thread_pool=thread_pool,
       input_iterable=input_iterable,
       parallism=max_parallism,
       buffer_size=buffer_size,
   )
+  if isinstance(result, IteratorQueue) and isinstance(
+      input_iterable, IteratorQueue
+  ):
+    # Stopping the consumer early has to stop the threads feeding the workers
+    # as well, they are otherwise blocked on the full input queue for good.
+    result.stop_with(input_iterable)
+  return result
 
 
 def pmap(
